@@ -92,6 +92,9 @@ pub enum Dirty {
   /// no return type; an early bare `return;` precedes `return <non-inferable value>;`
   EarlyBareReturn,
   MethodEarlyBareReturn,
+  /// the constant is bound by a destructuring pattern / declared with `using`
+  DestructuredConst,
+  UsingConst,
 }
 
 #[derive(Clone, Debug, PartialEq, Eq, Hash)]
@@ -387,7 +390,7 @@ pub fn gen_pkg(rng: &mut Rng, name: &str, n_files: usize, dirty: bool) -> Pkg {
           Dirty::UntypedStaticProp,
         ]),
         DK::OverloadedFunction => Dirty::OverloadUntypedParam,
-        DK::TypedConst => Dirty::UntypedConstCall,
+        DK::TypedConst => *rng.pick(&[Dirty::UntypedConstCall, Dirty::UntypedConstCall, Dirty::DestructuredConst, Dirty::UsingConst]),
         DK::CompositeConst => *rng.pick(&[
           Dirty::CallInArray,
           Dirty::CallInObject,
@@ -967,6 +970,21 @@ pub fn render_file(p: &Pkg, f: usize) -> String {
             d.name,
             v % 9
           )),
+          Some(Dirty::DestructuredConst) => body.push_str(&format!(
+            "{}const {{ {} }} = compute({}) as any;\n",
+            if d.default_export { "" } else { ex },
+            d.name,
+            v % 9
+          )),
+          // `using` declarations cannot carry `export`: the name reaches the API through an export list
+          Some(Dirty::UsingConst) if !d.default_export && d.exported => body.push_str(&format!(
+            "using {}: {} = compute({}) as any;\nexport {{ {} }};\n",
+            d.name,
+            t(0),
+            v % 9,
+            d.name
+          )),
+          Some(Dirty::UsingConst) => body.push_str(&format!("using {}: {} = compute({}) as any;\n", d.name, t(0), v % 9)),
           _ => body.push_str(&format!(
             "{}const {}: {} = compute({}) as any;\n",
             if d.default_export { "" } else { ex },
